@@ -487,9 +487,16 @@ func RunDriver(p Property, o DriverOpts) int {
 		"violations":  len(unmatched),
 	}
 	if o.Only < 0 {
-		os.MkdirAll(filepath.Join(o.VerifDir, "evidence"), 0o755)
 		b, _ := json.MarshalIndent(ev, "", " ")
-		os.WriteFile(filepath.Join(o.VerifDir, "evidence", id+".json"), append(b, '\n'), 0o644)
+		if scratch := os.Getenv("VERIF_REPO"); scratch != "" {
+			// a run against a scratch copy of the library (a seeded change): what it saw is no evidence about /repo
+			ev["library_tree"] = scratch
+			b, _ = json.MarshalIndent(ev, "", " ")
+			os.WriteFile(filepath.Join(o.VerifDir, "work", id, "evidence-scratch.json"), append(b, '\n'), 0o644)
+		} else {
+			os.MkdirAll(filepath.Join(o.VerifDir, "evidence"), 0o755)
+			os.WriteFile(filepath.Join(o.VerifDir, "evidence", id+".json"), append(b, '\n'), 0o644)
+		}
 	}
 	if !o.Quiet {
 		fmt.Printf("property=%s tier=%s seed=%d cases=%d/%d evaluations=%d distinct_nontrivial=%d violations=%d known=%d deaths=%d wall=%.1fs\n",
